@@ -2,6 +2,7 @@ package main
 
 import (
 	"fmt"
+	"go/constant"
 	"go/token"
 	"go/types"
 	"sort"
@@ -462,7 +463,29 @@ func runC08(c *Ctx) {
 				okKinds = false
 			}
 		}
-		c.Check("C08.O1", "createUpdatePatches:remove-before-add", len(sites) == 6 && okKinds && len(bad) == 0, cup.Pos(), fmt.Sprintf("append sites %v; order violations %v", ks, bad))
+		okOrder := len(sites) == 6 && okKinds && len(bad) == 0
+		if !okOrder {
+			// table form: the builders are listed in a slice literal that one loop walks in index order, appending the
+			// patch each listed builder returns — the patch order is the order of the literal
+			if kinds, ok := c.builderTableOrder(cup); ok {
+				ks = kinds
+				bad = nil
+				seenAdd := false
+				for _, k := range kinds {
+					if strings.HasPrefix(k, "add") {
+						seenAdd = true
+					}
+					if strings.HasPrefix(k, "remove") && seenAdd {
+						bad = append(bad, "an add builder is listed before "+k)
+					}
+					if k == "?" {
+						bad = append(bad, "unclassified builder in the table")
+					}
+				}
+				okOrder = len(kinds) == 6 && len(bad) == 0
+			}
+		}
+		c.Check("C08.O1", "createUpdatePatches:remove-before-add", okOrder, cup.Pos(), fmt.Sprintf("patch builders in emission order %v; order violations %v", ks, bad))
 	}
 	c.Min("C08.O1", 1)
 
@@ -498,4 +521,137 @@ func (c *Ctx) patchKindOf(g *ssa.Function, d int) string {
 		}
 	})
 	return kind
+}
+
+// builderTableOrder: f lists patch builder functions in a local slice literal (a field of each element), ranges over
+// it in ascending index order and appends, inside that loop, the value returned by calling the element's function.
+// Returns the builders' patch kinds in literal order.
+func (c *Ctx) builderTableOrder(f *ssa.Function) ([]string, bool) {
+	var kinds []string
+	found := false
+	forEachInstr(f, func(in ssa.Instruction) {
+		sl, ok := in.(*ssa.Slice)
+		if !ok || found {
+			return
+		}
+		al, ok := sl.X.(*ssa.Alloc)
+		if !ok {
+			return
+		}
+		arr, ok := al.Type().Underlying().(*types.Pointer).Elem().Underlying().(*types.Array)
+		if !ok || arr.Len() == 0 {
+			return
+		}
+		fns := make([]*ssa.Function, arr.Len())
+		for _, r := range *al.Referrers() {
+			ia, isIA := r.(*ssa.IndexAddr)
+			if !isIA {
+				continue
+			}
+			kc, isK := ia.Index.(*ssa.Const)
+			if !isK {
+				continue
+			}
+			k, _ := constant.Int64Val(kc.Value)
+			for _, rr := range *ia.Referrers() {
+				if fa, isFA := rr.(*ssa.FieldAddr); isFA {
+					for _, r3 := range *fa.Referrers() {
+						if st, isS := r3.(*ssa.Store); isS && st.Addr == ssa.Value(fa) {
+							if fn := funcValueOf(st.Val); fn != nil && k >= 0 && k < arr.Len() {
+								fns[k] = fn
+							}
+						}
+					}
+				}
+			}
+		}
+		for _, fn := range fns {
+			if fn == nil {
+				return
+			}
+		}
+		// walked in ascending order, each element's function called and its result appended in the loop
+		okWalk := false
+		for _, r := range *sl.Referrers() {
+			ia, isIA := r.(*ssa.IndexAddr)
+			if !isIA || !ascendingFromZero(ia) {
+				continue
+			}
+			for _, l := range naturalLoops(f) {
+				if !l.blocks[ia.Block()] {
+					continue
+				}
+				for b := range l.blocks {
+					for _, i2 := range b.Instrs {
+						ap, isC := i2.(*ssa.Call)
+						if !isC {
+							continue
+						}
+						if bi, isB := ap.Call.Value.(*ssa.Builtin); !isB || bi.Name() != "append" {
+							continue
+						}
+						cands := map[ssa.Value]bool{}
+						for v := range backSlice(ap.Call.Args[1]) {
+							cands[v] = true
+						}
+						if els, okE := c.varargValues(ap.Call.Args[1]); okE {
+							for _, e := range els {
+								for v := range backSlice(e) {
+									cands[v] = true
+								}
+							}
+						}
+						for v := range cands {
+							if dc, isDC := v.(*ssa.Call); isDC && dc.Call.StaticCallee() == nil && !dc.Call.IsInvoke() {
+								if _, isBuiltin := dc.Call.Value.(*ssa.Builtin); !isBuiltin && loadedFromElement(dc.Call.Value, ia) {
+									okWalk = true
+								}
+							}
+						}
+					}
+				}
+			}
+		}
+		if !okWalk {
+			return
+		}
+		found = true
+		for _, fn := range fns {
+			kinds = append(kinds, c.patchKindOf(fn, 0))
+		}
+	})
+	return kinds, found
+}
+
+// loadedFromElement: v is read from (a field of) the slice element addressed by ia, possibly through the range
+// variable's own cell.
+func loadedFromElement(v ssa.Value, ia *ssa.IndexAddr) bool {
+	for d := 0; d < 8; d++ {
+		switch x := v.(type) {
+		case *ssa.IndexAddr:
+			return x == ia
+		case *ssa.UnOp:
+			v = x.X
+		case *ssa.FieldAddr:
+			v = x.X
+		case *ssa.Field:
+			v = x.X
+		case *ssa.Alloc:
+			var src ssa.Value
+			n := 0
+			for _, r := range *x.Referrers() {
+				if st, ok := r.(*ssa.Store); ok && st.Addr == ssa.Value(x) {
+					n++
+					src = st.Val
+				}
+			}
+			if n != 1 {
+				return false
+			}
+			v = src
+		default:
+			return false
+		}
+	}
+	return false
 }
